@@ -151,10 +151,14 @@ def chunked(name, ty, items, size=400):
 
 # ------------------------------------------------------------------ parsing the engine's output
 KEYONLY_SKIPPED = [0]
+LIMIT_LINES = []   # V lines of the last parse (limit verdicts on directed near-limit scripts)
+VERDICT = {"ok": 0, "size": 1, "witems": 2, "ops": 3, "stack": 4}
 
 
 def parse(text):
     R, T, D, X, Y = [], [], [], [], []
+    V = LIMIT_LINES
+    del V[:]
     cur = None
     for line in text.splitlines():
         t = line.split()
@@ -192,6 +196,11 @@ def parse(text):
             cur[t[0]].append(rec)
         elif t[0] == "X":
             X.append(line)
+        elif t[0] == "V":
+            p = [x.strip() for x in line.split("|")]
+            h = p[0].split()
+            f = dict(x.split("=", 1) for x in p[2].split())
+            V.append({"ctx": h[1], "origin": h[2], "dump": p[1], "verdict": f["verdict"], "within": f["within"]})
         elif t[0] == "Y":
             p = [x.strip() for x in line.split("|")]
             h = p[0].split()
@@ -245,6 +254,8 @@ def gen_file(R, T, D):
             sz = "[]" if p["sizes"] == "-" else "[" + ";".join(p["sizes"].split(",")) + "]"
             pl.append("(%s, %s, (%d, %d, %d))" % (key[0], sz, p["ann_w"], p["ann_s"], p["ann_sw"]))
     s.append(chunked("plan_cases", "(plan_kind * list N * (N * N * N))", pl))
+    vl = ["mkV %s %s %d %s" % (CTX[v["ctx"]], ms_coq(v["dump"].split()), VERDICT.get(v["verdict"], 9), b(v["within"] == "1")) for v in LIMIT_LINES]
+    s.append(chunked("limit_cases", "vcase", vl, 8))
     return "".join(s), rules, len(tl), len(dl), len(pl)
 
 
@@ -413,14 +424,14 @@ def attribute(need_attr):
 DRIVER_EXT = os.path.join(vlib.VERIF, "ocaml", "driver_ext")
 
 
-def run_traces(hbin, seed, n):
+def run_traces(hbin, seed, n, producer=None):
     """sat engine | extracted instrumented Script semantics: executed opcode count and stack depth
     of every satisfaction the implementation returns, compared with the library's figures"""
     with vlib.Lock("ocaml"):
         p = vlib.sh(["./build_ext.sh"], cwd=os.path.join(vlib.VERIF, "ocaml"), timeout=1200, stack_unlimited=True)
         if p.returncode != 0 or not os.path.exists(DRIVER_EXT):
             raise RuntimeError("extraction / driver_ext build failed: " + (p.stderr or p.stdout)[-3000:])
-    p = vlib.sh("%s sat %d %d 2>/dev/null | %s" % (hbin, seed, n, DRIVER_EXT), timeout=3000)
+    p = vlib.sh("%s %s 2>/dev/null | %s" % (hbin, producer or ("sat %d %d" % (seed, n)), DRIVER_EXT), timeout=3000)
     if p.returncode != 0:
         raise RuntimeError("trace run failed: " + p.stderr[-2000:])
     bad, summary, hist = [], {}, {}
@@ -460,6 +471,7 @@ def run(rep, tier, seed, replay):
     if p.returncode != 0:
         raise RuntimeError("ext engine failed: " + p.stderr[-2000:])
     R, T, D, X, Y = parse(p.stdout)
+    limit_lines = list(LIMIT_LINES)
     args = [seed, nr, nt, nd]
     for x in X:
         rep.violation("corpus", "a directed corpus entry is no longer accepted by the library: " + x, {"property": "C09", "line": x, "broken_tie": "ext engine corpus"}, False)
@@ -490,6 +502,7 @@ def run(rep, tier, seed, replay):
             tree_idx = [int(x) for x in re.findall(r"\((\d+),\s*\{\|", blocks[1])] if len(blocks) > 1 else []
             desc_idx = [int(x) for x in re.findall(r"\((\d+),\s*(?:Some|None)", blocks[2])] if len(blocks) > 2 else []
             plan_bad = len(re.findall(r"PLegacy|PSegwitNative|PShWsh|PShWpkh|PTaproot", blocks[3])) if len(blocks) > 3 else 0
+            lim_idx = [int(x) for x in re.findall(r"\((\d+),\s*\d+,\s*(?:true|false)\)", blocks[4])] if len(blocks) > 4 else []
             by_rule = collections.Counter(rules[i][2] for i in rule_idx if i < len(rules))
             for name, cnt in sorted(by_rule.items()):
                 i = next(i for i in rule_idx if rules[i][2] == name)
@@ -504,6 +517,10 @@ def run(rep, tier, seed, replay):
                 tie_breaks.append(("tie:desc-weight", "max_weight_to_satisfy differs from the model's formula on %d descriptor(s)" % len(desc_idx), {"differing": len(desc_idx), "first_index": desc_idx[0]}))
             if plan_bad:
                 tie_breaks.append(("tie:plan", "Plan::witness_size/scriptsig_size/satisfaction_weight differ from the model's accounting on %d template(s)" % plan_bad, {"differing": plan_bad}))
+            if lim_idx:
+                v0 = LIMIT_LINES[lim_idx[0]]
+                tie_breaks.append(("tie:limit-verdict", "validate_non_top_level (SANE limits) / within_resource_limits differ from the model's sd_wcount + sd_estack verdict on %d near-limit script(s), e.g. [%s] verdict=%s within=%s on %s" % (len(lim_idx), v0["ctx"], v0["verdict"], v0["within"], v0["dump"][:300]),
+                                   {"ms": v0["dump"], "ctx": v0["ctx"], "verdict": v0["verdict"], "within": v0["within"], "differing": len(lim_idx)}))
             if not tie_breaks:
                 tie_breaks.append(("tie:unknown", "ExtCasesCheck.v fails: " + (c2.stderr or c2.stdout)[-600:], {}))
 
@@ -517,6 +534,15 @@ def run(rep, tier, seed, replay):
                            "translate_pk result carries ext/type %s, the same tree built with from_ast has %s: %s [%s, %s]" % (
                                y["translated_ext"], y["rebuilt_ext"], y["ms"], y["ctx"], y["origin"]),
                            dict(y, failed_clause="translated.ext == from_ast-rebuilt.ext (figures describe the translated script)")))
+    # the two limit checks of the library (parse-time validation under SANE, within_resource_limits) on the same script
+    st["limit-verdicts/compared"] = len(LIMIT_LINES)
+    for v in LIMIT_LINES:
+        if v["verdict"].startswith("other") or "PANIC" in (v["verdict"], v["within"]):
+            direct.append(("limits:verdict-unexpected", "validate_non_top_level / within_resource_limits gave %s / %s on a directed near-limit script [%s] %s" % (v["verdict"], v["within"], v["ctx"], v["dump"][:200]),
+                           dict(v, ms=v["dump"], failed_clause="the limit verdict is one of ok / size / witems / ops / stack")))
+        elif (v["verdict"] == "ok") != (v["within"] == "1"):
+            direct.append(("limits:verdicts-disagree", "validate_non_top_level(SANE) says %s, within_resource_limits says %s on [%s] %s" % (v["verdict"], v["within"], v["ctx"], v["dump"][:200]),
+                           dict(v, ms=v["dump"], failed_clause="parse-time limit validation and within_resource_limits agree on the stack / witness-item limits")))
     found_real = False
     attributed = attribute(need_attr)
     for a, comps, masks in attributed:
@@ -558,6 +584,24 @@ def run(rep, tier, seed, replay):
             rep.violation(key, "%s on %s [%s, keymask %s, premask %s]" % (a["msg"], a["input"]["desc"], a["input"].get("mode"), a["input"].get("keymask"), a["input"].get("premask")),
                           dict(a["input"], repairs_that_cover=masks), True)
             found_real = found_real or len(rep.violations) > before
+    # directed near-limit tapscript leaves: every satisfaction the library produces for a leaf that its
+    # SANE validation accepts must run within the consensus stack limit (depth by the extracted exec_tr)
+    lbad, lsum, _ = run_traces(hbin, seed, 0, producer="ext limits")
+    for b in lbad:
+        what = b.get("what")
+        if what == "stacklimit":
+            key, msg = "limits:accepted-script-exceeds-stack-limit", "a leaf accepted by validate_non_top_level(Tap::SANE) runs with %s stack elements (limit %s) on the satisfaction the library produced (%s witness items)" % (b["measured"], b["limit"], b.get("items"))
+        elif what == "stackdepth":
+            key, msg = "undershoot:stack-depth:near-limit", "stack+altstack depth %s > max_witness_stack_count %s + max_exec_stack_count %s" % (b["measured"], b["max_witness_stack_count"], b["max_exec_stack_count"])
+        else:
+            key, msg = "limits:trace:" + str(what), "unexpected judgement on a near-limit leaf"
+        before = len(rep.violations)
+        rep.violation(key, "%s: %s [%s, keymask %s]" % (msg, (b.get("ms") or "")[:160], b.get("mode"), b.get("keymask")),
+                      dict(b, property="C09", engine="ext limits | driver_ext", engine_args=["limits"],
+                           failed_clause="depth during execution <= 1000 for every script the validation accepts"), True)
+        found_real = found_real or len(rep.violations) > before
+    st["limit-traces/executed"] = lsum.get("traced", 0)
+    st["compared"] += lsum.get("traced", 0)
     st["traces/executed"] = tsum.get("traced", 0)
     st["compared"] += 2 * tsum.get("traced", 0)
 
